@@ -200,7 +200,65 @@ func (g *Gen) update(base string, path []step, v string) string {
 	return app("mk."+sn, fs...)
 }
 
+// Struct-typed local cells are split into one state component per field (recursively), so that
+// a loop or a call that writes one field does not forget the others.
+func (g *Gen) cellSplit(key string, ty types.Type, path []step) (string, types.Type, []step) {
+	for len(path) > 0 && !path[0].isIdx {
+		su, ok := types.Unalias(ty).Underlying().(*types.Struct)
+		if !ok {
+			break
+		}
+		f := su.Field(path[0].field)
+		key = key + "#" + f.Name()
+		ty = f.Type()
+		path = path[1:]
+	}
+	return key, ty, path
+}
+
+func (g *Gen) cellLoadWhole(st *State, key string, ty types.Type) string {
+	if su, ok := types.Unalias(ty).Underlying().(*types.Struct); ok && su.NumFields() > 0 {
+		sn := g.sortOf(ty)
+		var fs []string
+		for i := 0; i < su.NumFields(); i++ {
+			fs = append(fs, g.cellLoadWhole(st, key+"#"+su.Field(i).Name(), su.Field(i).Type()))
+		}
+		return app("mk."+sn, fs...)
+	}
+	g.keyDecl(key, g.sortOf(ty))
+	return g.get(st, key)
+}
+
+func (g *Gen) cellStoreWhole(key string, ty types.Type, v string) {
+	if su, ok := types.Unalias(ty).Underlying().(*types.Struct); ok && su.NumFields() > 0 {
+		sn := g.sortOf(ty)
+		for i := 0; i < su.NumFields(); i++ {
+			g.cellStoreWhole(key+"#"+su.Field(i).Name(), su.Field(i).Type(), app(g.fieldAcc(sn, su, i), v))
+		}
+		return
+	}
+	g.keyDecl(key, g.sortOf(ty))
+	g.set(key, v)
+}
+
+func (g *Gen) cellType(l *Loc) types.Type {
+	// type of the whole cell: recover from the first path step, else the located type
+	if len(l.path) > 0 && !l.path[0].isIdx {
+		return l.path[0].st
+	}
+	if len(l.path) == 0 {
+		return l.ty
+	}
+	return nil
+}
+
 func (g *Gen) loadIn(st *State, l *Loc) string {
+	if l.kind == lCell {
+		if ct := g.cellType(l); ct != nil {
+			key, ty, rest := g.cellSplit(l.key, ct, l.path)
+			return g.project(g.cellLoadWhole(st, key, ty), rest)
+		}
+	}
 	switch l.kind {
 	case lCell, lGlobal:
 		return g.project(g.get(st, l.key), l.path)
@@ -227,6 +285,17 @@ func (g *Gen) loadIn(st *State, l *Loc) string {
 }
 
 func (g *Gen) store(l *Loc, v string) {
+	if l.kind == lCell {
+		if ct := g.cellType(l); ct != nil {
+			key, ty, rest := g.cellSplit(l.key, ct, l.path)
+			if len(rest) == 0 {
+				g.cellStoreWhole(key, ty, v)
+			} else {
+				g.cellStoreWhole(key, ty, g.update(g.cellLoadWhole(g.st, key, ty), rest, v))
+			}
+			return
+		}
+	}
 	switch l.kind {
 	case lCell, lGlobal:
 		g.set(l.key, g.update(g.get(g.st, l.key), l.path, v))
@@ -413,7 +482,7 @@ func (g *Gen) instr(in ssa.Instruction) {
 		et := derefType(in.Type())
 		if !g.escape[in] {
 			l := g.locOf(in)
-			g.set(l.key, g.zero(et))
+			g.store(l, g.zero(et))
 		} else {
 			id := g.newObject("new_" + in.Name())
 			g.vals[in] = id
@@ -504,7 +573,7 @@ func (g *Gen) instr(in ssa.Instruction) {
 		id := g.newObject("mk_" + in.Name())
 		et := in.Type().Underlying().(*types.Slice).Elem()
 		k := g.elemKey(et)
-		g.set(k, app("store", g.get(g.st, k), id, fmtf("((as const (Array Int %s)) %s)", g.sortOf(et), g.zero(et))))
+		g.set(k, app("store", g.get(g.st, k), id, g.constArray("(Array Int "+g.sortOf(et)+")", g.zero(et))))
 		g.define(in, app("mk_slice", id, "0", ln, cp))
 	case *ssa.MakeMap:
 		id := g.newObject("map_" + in.Name())
